@@ -144,7 +144,7 @@ func (v *Verifier) VerifyFunc(key string, c *Contract, class map[string]string) 
 	bv := fn.Pkg != nil && fn.Pkg.Pkg.Name() == "typ"
 	ctx := NewCtx()
 	e := &Engine{prog: v.prog, pkgs: v.pkgs, cs: v.cs, ctx: ctx, lay: NewLayouter(ctx, bv), root: fn, rootC: c, maxPaths: 4000,
-		inputs: map[string]Term{}, trustedUsed: map[string]bool{}, callees: map[string]bool{}, subFuns: map[string]bool{}, subCodes: map[string]int{}}
+		inputs: map[string]Term{}, trustedUsed: map[string]bool{}, callees: map[string]bool{}, subFuns: map[string]bool{}, subCodes: map[string]int{}, adtTypes: map[string]types.Type{}}
 	if fn.Pkg != nil {
 		switch fn.Pkg.Pkg.Name() {
 		case "sets", "sync2", "maps":
@@ -216,7 +216,7 @@ func (v *Verifier) VerifyFunc(key string, c *Contract, class map[string]string) 
 				st.Assume(Not(Eq(pv.L[0], IntLit(0))))
 			}
 		}
-		if pt, ok := t.Underlying().(*types.Pointer); ok {
+		if pt, ok := t.Underlying().(*types.Pointer); ok && e.isOwnedPtr(t) == nil {
 			// the pointee, if any, is a well-formed value of its type
 			pe := resolve(pt.Elem(), env)
 			if _, isStruct := pe.Underlying().(*types.Struct); !isStruct || true {
@@ -270,6 +270,26 @@ func (v *Verifier) VerifyFunc(key string, c *Contract, class map[string]string) 
 	// preconditions
 	se := &SpecEnv{e: e, st: st, old: st, fr: rootFr, vars: e.params, env: env, pkg: c.Pkg}
 	e.bindLets(c, se)
+	// owned structures reachable from parameters: one closed chunk each
+	for _, p := range fn.Params {
+		pv := e.params[p.Name()]
+		if od := e.isOwnedPtr(pv.T); od != nil {
+			e.addTree(st, od, pv.L[0], e.freshTree(st, od, p.Name()))
+		}
+	}
+	for _, ow := range c.Extra["ownsfield"] {
+		// opt ownsfield <param>.<field>: the structure below that field of a (non-owned) struct parameter
+		f := strings.SplitN(ow, ".", 2)
+		if len(f) == 2 {
+			if pv, ok := e.params[f[0]]; ok {
+				fv := e.specField(pv, f[1], se)
+				if od := e.isOwnedPtr(fv.T); od != nil {
+					e.addTree(st, od, fv.L[0], e.freshTree(st, od, f[1]))
+				}
+			}
+		}
+	}
+	e.assumeTheory(st, c.Pkg, se)
 	for _, r := range c.Requires {
 		st.Assume(e.evalBool(r.E, se))
 	}
@@ -442,7 +462,7 @@ func (v *Verifier) VerifyLemma(ax *Axiom) (run *FuncRun) {
 	run = &FuncRun{Key: ax.Pkg + ".lemma." + ax.Name}
 	ctx := NewCtx()
 	e := &Engine{prog: v.prog, pkgs: v.pkgs, cs: v.cs, ctx: ctx, lay: NewLayouter(ctx, false), maxPaths: 10,
-		inputs: map[string]Term{}, trustedUsed: map[string]bool{}, callees: map[string]bool{}, subFuns: map[string]bool{}, subCodes: map[string]int{}}
+		inputs: map[string]Term{}, trustedUsed: map[string]bool{}, callees: map[string]bool{}, subFuns: map[string]bool{}, subCodes: map[string]int{}, adtTypes: map[string]types.Type{}}
 	e.funcName = run.Key
 	e.next0 = ctx.Const("next0", SInt)
 	defer func() {
